@@ -576,6 +576,18 @@ class PteraTransformer(NodeTransformer):
             node,
         )
 
+    def visit_AsyncFunctionDef(self, node):
+        # Like a nested def, this is a scope of its own: leave it alone
+        return node
+
+    def visit_Lambda(self, node):
+        return node
+
+    def visit_ClassDef(self, node):
+        # The body of a nested class is not part of the function's scope.
+        # (Also, the __ptera_* names would be mangled inside a class body.)
+        return node
+
     def visit_For(self, node):
         new_body = self.generate_interactions(node.target)
         new_body.extend(self.visit_body(node.body))
